@@ -32,6 +32,28 @@ for f in sorted(glob.glob(os.path.join(V, 'seeded', '*', 'meta.json'))):
                (m.get('title', '') or '').replace('|', '\\|')[:200], (m.get('needs', '') or '').replace('|', '\\|')[:220],
                verdict, '; '.join(m.get('check_detail', []))[:260].replace('|', '\\|')))
 out.append('')
+out.append('### 12b. Property-preserving changes (false-alarm test)\n')
+out.append('Each change was produced by a fresh sub-agent that saw only the property text (prompt: `tools/benign_prompt.py`) and was asked '
+           'for realistic refactors / rewordings of the anchored code that keep the property true; `tools/eval_benign.py` runs the quick '
+           'check (seeds 0 and 1) of the property and of every other property whose anchor files the patch touches against a scratch '
+           'worktree with the patch. Expected verdict: quiet (exit 0). Stored under `benign/<id>/`.\n')
+out.append('| id | change | checks run | verdict |\n|---|---|---|---|')
+for f in sorted(glob.glob(os.path.join(V, 'benign', '*', 'meta.json'))):
+    m = json.load(open(f))
+    runs = m.get('checks_run') or []
+    props = sorted({r['property'] for r in runs})
+    alarms = m.get('alarms')
+    if alarms is None:
+        verdict = 'not evaluated'
+    elif not alarms:
+        verdict = 'quiet'
+    else:
+        verdict = 'ALARM: ' + '; '.join('%s seed %s exit %s' % (a['property'], a['seed'], a['exit']) for a in alarms)
+    if m.get('note'):
+        verdict += ' — ' + m['note']
+    out.append('| %s | %s | %s | %s |' % (m.get('benign_id', os.path.basename(os.path.dirname(f))),
+               (m.get('title', '') or '').replace('|', '\\|')[:260], ' '.join(props), verdict.replace('|', '\\|')[:400]))
+out.append('')
 out.append('## 13. Per-property build notes\n')
 out.append('(Verbatim from `docs/Cxx.md`, written by whoever built the check; they supersede the round-0 plan in section 6 '
            'where the two differ.)\n')
